@@ -9,7 +9,17 @@ class Check(RuntimeCheck):
     design_ref = 'DESIGN.md §4.3, §5 C04'
     theorems = ['C04_ordered_call_bumps', 'C04_accepts', 'C04_wrong_method', 'C04_wrong_inputs',
                 'C04_unordered_no_slot', 'C04_unmentioned_no_slot', 'C04_assembled_ranges',
-                'C04_accepted_call_refines', 'C04_unordered_keeps_invariant', 'ranges_of_setPat', 'modeOf_setPat']
+                'C04_accepted_call_refines', 'C04_unordered_keeps_invariant', 'ranges_of_setPat', 'modeOf_setPat', 'C04_source_slot_test']
+
+    def run(self, tier, seed, replay=None):
+        # re-translate the verification / slot-ownership functions of src/counter.rs and src/fn_mocker.rs first
+        from .. import engine
+        ok, msg = engine.run_translator('translate_counter')
+        self._translator = msg
+        return super().run(tier, seed, replay)
+
+    def extra_assumptions(self):
+        return ["tools/translate_counter.py: " + getattr(self, '_translator', 'not run') + " (an UNRECOGNISED function is tied by the correspondence run only)"]
 
     def rule(self):
         return ("prefix-tree enumeration: ordered clause sequences (2..4 next_call clauses over methods a/b of two traits, "
